@@ -161,7 +161,7 @@ def check_witness(case):
     if raised(dec):
         f.add(f"witness-deser/raises-{dec.kind}/{big}", dec)
     else:
-        ok = isinstance(dec, tuple) and len(dec) == 2 and list(dec[0]) == [x.hex() for x in items] and dec[1] == trailing
+        ok = isinstance(dec, tuple) and len(dec) == 2 and isinstance(dec[0], (list, tuple)) and list(dec[0]) == [x.hex() for x in items] and dec[1] == trailing
         f.expect(ok, f"witness-deser/ne-items/{big}", repr(dec)[:200])
     return cls, f
 
